@@ -248,6 +248,101 @@ def task_latitude(ctx, ns, nt):
         ctx.error('latitude.' + cname, 'counterexample did not replay (sin axioms too weak?)')
 
 
+# ---------------------------------------------------------------------------
+def _specialize_toint(terms, assumptions, timeout_ms=5000):
+  """Replaces every ToInt(t) whose value is fixed by `assumptions` (one sat + one unsat query each) by that integer."""
+  found = {}
+  seen = set()
+
+  def rec(t):
+    if t.get_id() in seen:
+      return
+    seen.add(t.get_id())
+    if z3.is_app(t) and t.decl().kind() == z3.Z3_OP_TO_INT:
+      found[t.get_id()] = t
+    for c in t.children():
+      rec(c)
+  for t in terms:
+    rec(t)
+  s = z3.Solver(); s.set('timeout', timeout_ms); s.add(list(assumptions))
+  subs = []
+  nq = 0
+  for t in found.values():
+    nq += 2
+    if str(s.check()) != 'sat':
+      continue
+    n = s.model().eval(t, model_completion=True)
+    s.push(); s.add(t != n); r = str(s.check()); s.pop()
+    if r == 'unsat':
+      subs.append((t, n))
+  out = [z3.simplify(z3.substitute(t, *subs)) if subs else t for t in terms]
+  return out, len(found), len(subs), nq
+
+
+def task_longitude(ctx, ns, nt, rot_s=(0, 0), rot_t=(0, 0)):
+  """_longitude_overlap with SYMBOLIC increasing centres spanning less than one period.  rot = (k, j): the first j
+  centres lie in [2 pi k, 2 pi (k+1)) and the others one period higher (so `points % period` is a rotation of the
+  array; k = j = 0 is the plain [0, 2 pi) layout).  Validity domain (see DESIGN 9.3, F10): every gap between neighbouring
+  centres (periodically) is below half a period and every source cell and target cell together are narrower than
+  half a period.  Clauses: overlap >= 0, row sums = target cell widths, column sums = source cell widths (QF_LRA)."""
+  from dinosaur import horizontal_interpolation as hi
+  from dverif.term import specialize
+  ctx.encoded(hi._longitude_overlap, hi._periodic_overlap, hi._periodic_upper_bounds, hi._periodic_lower_bounds, hi._align_phase_with)
+  sp = TermSpace()
+  s = TermArr.variables(sp, 's', (ns,)); t = TermArr.variables(sp, 't', (nt,))
+  # argument order of conservative_longitude_weights: (target, source)
+  cl = jax.make_jaxpr(lambda a, b: hi._longitude_overlap(a, b))(jnp.linspace(0, 6, nt), jnp.linspace(0, 6, ns))
+  o = Interp(sp).run(cl, t, s)[0]
+  sv, tv = list(s.a), list(t.a)
+  twopi = z3.RealVal(smt.Fraction(float(2 * np.pi)))
+  pre = [sv[i] < sv[i + 1] for i in range(ns - 1)] + [tv[i] < tv[i + 1] for i in range(nt - 1)]
+  pre += [sv[-1] - sv[0] < twopi, tv[-1] - tv[0] < twopi]
+  for v, n, (k, j) in ((sv, ns, rot_s), (tv, nt, rot_t)):
+    for i in range(n):
+      kk = k if i < j or j == 0 else k + 1
+      # (a centre exactly at a negative multiple of the period is left out: trunc(-q) is two-valued there)
+      pre += [v[i] >= twopi * kk if kk >= 0 else v[i] > twopi * kk, v[i] < twopi * (kk + 1)]
+
+  def widths(v, n):
+    return [((v[i] + v[(i + 1) % n] + (twopi if i == n - 1 else 0)) - ((v[i - 1] - (twopi if i == 0 else 0)) + v[i])) / 2 for i in range(n)]
+  ws, wt = widths(sv, ns), widths(tv, nt)
+  gaps = lambda v, n: [(v[(i + 1) % n] + (twopi if i == n - 1 else 0)) - v[i] for i in range(n)]
+  valid = [a + b < twopi / 2 for a in ws for b in wt] + [g < twopi / 2 for g in gaps(sv, ns) + gaps(tv, nt)]
+  conf = dict(source_points=ns, target_points=nt, source_rotation=list(rot_s), target_rotation=list(rot_t),
+              domain='gaps < pi and source width + target width < pi')
+  O = [_r(x) for x in o.a.reshape(-1)]
+  O = specialize(O, pre)
+  O, n_toint, n_fixed, nq = _specialize_toint(O, pre)
+  O = specialize(O, pre + valid[len(ws) * len(wt):])
+  ctx.clause('longitude.modulo_resolved_by_case', 'discharged' if n_fixed == n_toint else 'inconclusive', config=conf, queries=nq)
+  if n_fixed != n_toint:
+    ctx.error('longitude.modulo_resolved_by_case', f'{n_toint - n_fixed} floor terms not fixed by the case assumptions')
+    return
+  O = [[O[i * ns + j] for j in range(ns)] for i in range(nt)]
+  # vacuity: the validity domain is inhabited for this size / rotation
+  v, _ = smt.check_z3(pre + valid, 'QF_LRA', 20000)
+  if v != 'sat':
+    ctx.clause('longitude.domain_inhabited', 'inconclusive' if v != 'unsat' else 'failed', config=conf, queries=1)
+    ctx.error('longitude.domain_inhabited', f'validity domain {v} for {ns}x{nt} (needs 1/ns + 1/nt < 1/2)')
+    return
+  ctx.clause('longitude.domain_inhabited', 'discharged', config=conf, queries=1)
+  rows = [sum(O[i]) for i in range(nt)]; cols = [sum(O[i][j] for i in range(nt)) for j in range(ns)]
+  for cname, bad in (('overlap_nonnegative', z3.Or(*[x < 0 for r_ in O for x in r_])),
+                     ('row_sums_equal_target_cell_width', z3.Or(*[rows[i] != wt[i] for i in range(nt)])),
+                     ('column_sums_equal_source_cell_width', z3.Or(*[cols[j] != ws[j] for j in range(ns)]))):
+    ok, model = decide(ctx, 'longitude.' + cname, conf, pre + valid, bad, 'QF_LRA', timeout=300000)
+    if not ok and model is not None:
+      sc_ = _model_vals(model, sv); tc = _model_vals(model, tv)
+      real = np.asarray(hi._longitude_overlap(jnp.asarray(tc), jnp.asarray(sc_)))
+      wsn = np.asarray(_model_vals(model, ws)); wtn = np.asarray(_model_vals(model, wt))
+      d = max(np.abs(real.sum(1) - wtn).max(), np.abs(real.sum(0) - wsn).max(), -real.min())
+      if d > 1e-9:
+        ctx.violation('longitude.' + cname, dict(config=conf), dict(inputs=[sc_, tc], discrepancy=float(d), overlap=real.tolist()),
+                      f'_longitude_overlap: {cname} fails for source centres {sc_}, target centres {tc} (inside the validity domain)')
+      else:
+        ctx.error('longitude.' + cname, 'counterexample did not replay')
+
+
 def grid_pairs(tier):
   G = lambda **k: k
   pairs = [
@@ -256,6 +351,8 @@ def grid_pairs(tier):
       ('equiangular10x9->gauss8x5 offset', G(M=3, L=4, nlon=10, nlat=9, spacing='equiangular', offset=0.3), G(M=3, L=4, nlon=8, nlat=5)),
       ('gauss12x6->poles9x7 offset', G(M=3, L=4, nlon=12, nlat=6, offset=0.1), G(M=3, L=4, nlon=9, nlat=7, spacing='equiangular_with_poles', offset=0.5)),
       ('same grid', G(M=3, L=4, nlon=8, nlat=5), G(M=3, L=4, nlon=8, nlat=5)),
+      ('gauss12x6 offset -pi->gauss8x5', G(M=3, L=4, nlon=12, nlat=6, offset=-3.141592653589793), G(M=3, L=4, nlon=8, nlat=5)),
+      ('gauss10x5 offset 1.0->gauss8x4 offset -0.2', G(M=3, L=4, nlon=10, nlat=5, offset=1.0), G(M=2, L=3, nlon=8, nlat=4, offset=-0.2)),
       ('coarse lon 3->3 offset', G(M=1, L=2, nlon=3, nlat=3), G(M=1, L=2, nlon=3, nlat=4, offset=1.0471975511965976)),
       ('coarse lon 4->3 offset', G(M=1, L=2, nlon=4, nlat=3), G(M=1, L=2, nlon=3, nlat=3, offset=0.2617993877991494)),
       ('coarse lon 5->4 offset', G(M=2, L=3, nlon=5, nlat=4), G(M=1, L=2, nlon=4, nlat=3, offset=0.4)),
@@ -386,6 +483,14 @@ def make_tasks(tier, seed):
     tasks.append(dict(name=f'hybrid-{hn}-{sn}', fn='task_hybrid', kw=dict(hname=hn, sname=sn, sigma_bounds=sig[sn])))
   for ns, nt in [(3, 3), (4, 3)] + ([(5, 4)] if tier != 'quick' else []):
     tasks.append(dict(name=f'latitude-{ns}x{nt}', fn='task_latitude', kw=dict(ns=ns, nt=nt)))
+  rots = [((0, 0), (0, 0)), ((-1, 2), (0, 0)), ((0, 0), (0, 1)), ((0, 3), (-1, 2))]
+  if tier != 'quick':
+    rots = [(a, b) for a in [(0, 0)] + [(k, j) for k in (-1, 0) for j in range(1, 5)] for b in [(0, 0)] + [(k, j) for k in (-1, 0) for j in range(1, 4)]]
+  for rs, rt in rots:
+    tasks.append(dict(name=f'longitude-5x4-rot{rs[0]}.{rs[1]}-{rt[0]}.{rt[1]}', fn='task_longitude', kw=dict(ns=5, nt=4, rot_s=rs, rot_t=rt)))
+  if tier != 'quick':
+    for ns, nt in ((4, 5), (7, 3), (6, 4)):
+      tasks.append(dict(name=f'longitude-{ns}x{nt}', fn='task_longitude', kw=dict(ns=ns, nt=nt)))
   for pname, s, t in grid_pairs(tier):
     tasks.append(dict(name=f'pair-{pname}', fn='task_horizontal_pair', kw=dict(pname=pname, src=s, tgt=t)))
   return tasks
